@@ -2092,11 +2092,48 @@ def rule_rangeeq(toks, fired):
     return toks
 
 
+def rule_itermax0(toks, fired):
+    """itermax0:  E.iter().max().unwrap_or(&0)  ->  usize_iter_max_or0(E)    (E: a &Vec<usize> / &[usize]); the unit declares the helper
+    with the ASSUMED documented meaning of Iterator::max over usize: a reference to a largest element, or to 0 for an empty list"""
+    i = 0
+    while i < len(toks):
+        t = toks[i]
+        if t.kind == "ident" and t.text == "max" and not t.syn and toks[prev_code(toks, i - 1)].text == ".":
+            d_max = prev_code(toks, i - 1)
+            p1 = next_code(toks, i + 1)
+            # preceding `.iter()`
+            q = prev_code(toks, d_max - 1)
+            ok = toks[p1].text == "(" and next_code(toks, p1 + 1) == match_close(toks, p1) and toks[q].text == ")"
+            if ok:
+                qo = prev_code(toks, q - 1)
+                it = prev_code(toks, qo - 1)
+                d_it = prev_code(toks, it - 1)
+                ok = toks[qo].text == "(" and toks[it].text == "iter" and toks[d_it].text == "."
+            if ok:
+                e1 = match_close(toks, p1)
+                d_u = next_code(toks, e1 + 1)
+                u = next_code(toks, d_u + 1)
+                pu = next_code(toks, u + 1)
+                ok = toks[d_u].text == "." and toks[u].text == "unwrap_or" and toks[pu].text == "(" and \
+                    [x.text for x in toks[pu + 1:match_close(toks, pu)] if x.kind not in ("ws", "comment")] == ["&", "0"]
+            if ok:
+                a = _postfix_start(toks, d_it)
+                recv = toks[a:d_it]
+                toks = toks[:a] + synth("usize_iter_max_or0(") + recv + synth(")") + toks[match_close(toks, pu) + 1:]
+                fired["itermax0"] = fired.get("itermax0", 0) + 1
+                i = a + 1
+                continue
+        i += 1
+    return toks
+
+
+RULES["itermax0"] = rule_itermax0
 RULES["tupidx"] = rule_tupidx
 RULES["selfout"] = rule_selfout
 RULES["stepby"] = rule_stepby
 RULES["rangeeq"] = rule_rangeeq
 RULE_ORDER[RULE_ORDER.index("R20"):RULE_ORDER.index("R20")] = ["tupidx", "selfout", "stepby", "rangeeq"]
+RULE_ORDER[RULE_ORDER.index("R18"):RULE_ORDER.index("R18")] = ["itermax0"]
 
 
 def rule_fmtmsg(toks, fired):
@@ -2119,6 +2156,51 @@ def rule_fmtmsg(toks, fired):
 
 RULES["fmtmsg"] = rule_fmtmsg
 RULE_ORDER[RULE_ORDER.index("R20"):RULE_ORDER.index("R20")] = ["fmtmsg"]
+
+
+def rule_tupassign(toks, fired):
+    """(X1, .., Xk) = (E1, .., Ek);   ->   X1 = E1; .. Xk = Ek;        (unit solver_new_data: DefaultProblemData::new)
+    Verus does not support destructuring assignment.  Rust evaluates E1..Ek left to right and then assigns left to right; the
+    rewrite interleaves evaluation and assignment, which is the same whenever no Ei mentions one of the assigned names.  The rule
+    fires only when every Xi is a plain identifier, both sides are tuple literals of equal arity, and no Xi occurs among the tokens
+    of the right-hand side; otherwise it is an ExtractError (never a silent change)."""
+    i = 0
+    while i < len(toks):
+        t = toks[i]
+        if t.kind == "punct" and t.text == "(" and not t.syn:
+            pv = prev_code(toks, i - 1)
+            if pv >= 0 and toks[pv].kind == "punct" and toks[pv].text in (";", "{", "}"):
+                pe = match_close(toks, i)
+                eq = next_code(toks, pe + 1)
+                rp = next_code(toks, eq + 1) if eq < len(toks) else len(toks)
+                if eq < len(toks) and toks[eq].text == "=" and rp < len(toks) and toks[rp].text == "(":
+                    re_ = match_close(toks, rp)
+                    semi = next_code(toks, re_ + 1)
+                    lhs = split_top_commas(toks, i + 1, pe)
+                    rhs = split_top_commas(toks, rp + 1, re_)
+                    if semi < len(toks) and toks[semi].text == ";" and len(lhs) >= 2:
+                        names = []
+                        for (a, b) in lhs:
+                            code = [x for x in toks[a:b] if x.kind not in ("ws", "comment")]
+                            if len(code) != 1 or code[0].kind != "ident":
+                                raise ExtractError("tupassign: left-hand side is not a tuple of plain identifiers")
+                            names.append(code[0].text)
+                        if len(rhs) != len(lhs):
+                            raise ExtractError("tupassign: arity mismatch")
+                        if any(x.kind == "ident" and x.text in names for x in toks[rp:re_ + 1]):
+                            raise ExtractError("tupassign: an assigned name occurs on the right-hand side")
+                        out = []
+                        for nm, (a, b) in zip(names, rhs):
+                            out += synth(nm + " = ") + _strip_ws(toks[a:b]) + synth("; ")
+                        toks = toks[:i] + out + toks[semi + 1:]
+                        fired["tupassign"] = fired.get("tupassign", 0) + 1
+                        continue
+        i += 1
+    return toks
+
+
+RULES["tupassign"] = rule_tupassign
+RULE_ORDER[RULE_ORDER.index("R20"):RULE_ORDER.index("R20")] = ["tupassign"]
 
 
 def apply_rules(toks, rules, fired):
@@ -2364,6 +2446,20 @@ def merge_fn(toks, opts, sections, fired):
                 if len(hits) < nth:
                     raise ExtractError(f"lost anchor: {key!r} matches {len(hits)} times")
                 hits = [hits[nth - 1]]
+            if len(hits) == 0 and nth is None and len(pat) > 3:
+                # anchor fallback: the anchored statement itself was edited.  Take the longest proper token prefix of the anchor
+                # (at least 3 tokens) that still occurs exactly once: the annotation then sits at the same statement, and what the
+                # edit did to it is judged by the verifier (a failed obligation) instead of ending as "lost anchor".  On the
+                # unchanged tree the full anchor matches, so this path is never taken there.
+                for plen in range(len(pat) - 1, 2, -1):
+                    sub = pat[:plen]
+                    h2 = [k for k in range(len(texts) - plen + 1) if texts[k:k + plen] == sub]
+                    if len(h2) == 1:
+                        hits = h2
+                        fired["anchor_fallback"] = fired.get("anchor_fallback", 0) + 1
+                        break
+                    if len(h2) > 1:
+                        break
             if len(hits) != 1:
                 raise ExtractError(f"lost anchor: {key!r} matches {len(hits)} times")
             a, b = stmt_bounds(toks, ci[hits[0]])
@@ -2423,6 +2519,30 @@ def merge_fn(toks, opts, sections, fired):
                 break
             e += 1
         add(c1 + 1, bracket(" -> " + " ".join(l.strip() for l in lines[1:]) + " { "))
+        add(e, bracket(" }"))
+    # //@closure0 k : return binder and spec of the k-th ZERO-parameter closure (`|| BODY`, lexed as one `||` token; counted
+    # separately from the `|x| ..` closures above so that their ordinals do not move)
+    #   || BODY   ->   || /*@<*/-> (r: T) ensures .. {/*@>*/ BODY /*@<*/}/*@>*/
+    clos0 = [i for i in range(he + 1, bc) if toks[i].kind == "punct" and toks[i].text == "||"
+             and toks[prev_code(toks, i - 1)].text in ("(", ",", "=", "return")]
+    for key, text in sections.items():
+        m = re.fullmatch(r"closure0 (\d+)", key)
+        if not m:
+            continue
+        k = int(m.group(1))
+        if k > len(clos0):
+            raise ExtractError(f"lost anchor: annotation for zero-parameter closure {k} but function has {len(clos0)}")
+        c1 = clos0[k - 1]
+        e = c1 + 1
+        while True:
+            x = toks[e]
+            if x.kind == "punct" and x.text in OPEN:
+                e = match_close(toks, e) + 1
+                continue
+            if x.kind == "punct" and (x.text in CLOSE or x.text == ","):
+                break
+            e += 1
+        add(c1 + 1, bracket(" -> " + " ".join(l.strip() for l in text.strip("\n").split("\n")) + " { "))
         add(e, bracket(" }"))
     # //@after_stmt k / //@before_stmt k : the k-th top-level statement of the body (positional: survives reordering)
     if any(re.fullmatch(r"(after|before)_stmt \d+", k_) for k_ in sections):
@@ -2717,9 +2837,10 @@ def render_item(unit, kind, opts, sections):
             want = want[want.index(kind):]
         want_fn_only = None
         if "as" in opts:
-            if kind == "fn" and "fn" in want and want.index("fn") + 1 < len(want) and want[want.index("fn") + 1] == name:
+            if kind == "fn" and "fn" in want and want.index("fn") + 1 < len(want) and want[want.index("fn") + 1] in (name, opts["as"]):
                 # merge_fn renames exactly the identifier after the first `fn`; a body that mentions the same identifier
-                # (`X::new()` inside `fn new`) keeps it
+                # (`X::new()` inside `fn new`) keeps it.  (A statement slice has a hand-written header that already carries
+                # the as-name: nothing is renamed then.)
                 k_fn = want.index("fn") + 1
                 want_fn_only = want[:k_fn] + [opts["as"]] + want[k_fn + 1:]
             want = [opts["as"] if (w == name) else w for w in want]
